@@ -6,14 +6,14 @@ BASELINE_OFF = ("cd /repo && env -u FSIC_VERIF -u FSIC_VERIF_TRACE /venv/bin/pyt
                 "--timeout=900 --continue-on-collection-errors")
 
 CHECKS = {
-    'C02': dict(category='model_checking', engine='Solver', technique='TLA+ Solver.tla: TLC exhaustive slices + simulation; behaviours replayed into solve_t/solve_period/solve; hook traces validated by SolverTrace.tla',
+    'C02': dict(category='model_checking', engine='Solver', technique='TLA+ Solver.tla: TLC exhaustive slices + simulation; behaviours replayed into solve_t/solve_period/solve; hook traces validated by SolverTrace.tla; SolverInd.tla inductive invariant (Apalache) for unbounded min_iter/max_iter',
                 text='Solver.tla models one solve_t call step by step; TLC checks the declarative C02 invariants (first converging pass, failure, rejection, hook counts, termination) over every option set x outcome sequence in the stated slices, every terminal behaviour is replayed on the real solver (three entry points, two value scalings, boundary tolerances) and real executions (repo tests, random parser-built systems) are validated event by event against the same actions.',
                 note='Trusted: TLC; scripted-model realisation of abstract outcomes; float->int abstraction of recorded vectors; slices are finite (MaxI<=3 exhaustively, <=12 by simulation).', ref='6.1, 7 (C02)'),
     'C06': dict(category='model_checking', engine='Solver', technique='TLA+ Solver.tla fault alphabet: TLC exhaustive + simulation; fault behaviours replayed; naturally faulting models trace-validated by SolverTrace.tla',
                 text='Same machine as C02 with the fault alphabet fully open (silent NaN/inf, warning-raising operations, exceptions in statements and hooks, pre-existing non-finite cells, invalid errors=); TLC checks the C06 policy invariants; every faulting behaviour is replayed on the real solver; executions of models that fault naturally are validated against SolverTrace.tla.',
                 note='Trusted: as C02; warning-raising operations realised by NumPy float64 arithmetic.', ref='6.1, 7 (C06)'),
-    'C05': dict(category='model_checking', engine='MultiSolve', technique='TLA+ MultiSolve.tla: TLC exhaustive over span length x (start,end) labels x options x fault position; behaviours replayed through solve() on nine span types and against an explicit solve_t loop twin',
-                text='MultiSolve.tla models solve()/iter_periods()/solve_period() step by step with per-period outcomes taken from Solver.tla terminal summaries; TLC checks visits, returned triple, containment of failures and early rejection for every behaviour within the bound; each behaviour is replayed on the real code over nine span types and compared with the spec and with a twin driven by the explicit per-period loop.',
+    'C05': dict(category='model_checking', engine='MultiSolve', technique='TLA+ MultiSolve.tla: TLC exhaustive over span length x (start,end) labels x options x fault position; behaviours replayed through solve() on fourteen span types (incl. falsy first labels, descending / permuted NumPy spans), on fresh, previously solved and reindexed objects, against an explicit solve_t loop twin, and through BaseLinker.solve on a wrapping linker',
+                text='MultiSolve.tla models solve()/iter_periods()/solve_period() step by step with per-period outcomes taken from Solver.tla terminal summaries; TLC checks visits, returned triple, containment of failures and early rejection for every behaviour within the bound; each behaviour is replayed on the real code over fourteen span types and compared with the spec and with a twin driven by the explicit per-period loop.',
                 note='Trusted: TLC; scripted per-period faults; spans carry distinct labels and are at least LAGS+LEADS+1 long.', ref='6.2, 7 (C05)'),
     'C08': dict(category='model_checking', engine='Linker', technique='TLA+ Linker.tla: TLC exhaustive over submodel counts x ordered selections x options x per-iteration outcome sequences; behaviours replayed on a real BaseLinker with scripted submodels, single-submodel linkers compared with the bare model',
                 text='Linker.tla models construction and one BaseLinker.solve_t call step by step (validation, offset seeding, pre-hook, submodel passes in selection order, post-hook, judge, stamping); TLC checks order, convergence (first iteration at which every check variable moved < tol), stamping, unselected-untouched, unknown ids, span mismatch, offset and lag/lead maxima on every behaviour in the bound; each behaviour is replayed on the real linker through solve_t and solve under two value scalings, and single-submodel linkers are compared with solving the model directly.',
@@ -24,7 +24,7 @@ CHECKS = {
     'C16': dict(category='model_checking', engine='TimeSeries', technique='TLA+ TimeSeries.tla: shift/lag/lead/diff operators and an eval() expression machine enumerated exhaustively by TLC; every case replayed on fsic.functions and VectorContainer.eval over five span types',
                 text='TimeSeries.tla defines lag/lead/diff as the property states them and models eval() (label resolution, namespace assembly, evaluation, NameError->AttributeError) with a direct denotation layer (C16_* invariants); TLC enumerates all small arrays x shifts x fills and all expressions up to 3 operator nodes over namespace scenarios and spans; each emitted case carries the expected result and is replayed on the real helpers and on container.eval, also checking input arrays, the container and the package-level helper table are untouched.',
                 note='Trusted: TLC; ast round-trip of rendered expressions; arrays <=4, expressions <=3 operator nodes; dlog compared numerically against np.log differences.', ref='6.9, 7 (C16)'),
-    'C01': dict(category='translation_validation', engine='Script', technique="TLA+ Script.tla program space (stack machine, exhaustive layers + simulation) with reference semantics; generated _evaluate executed concolically on recording arrays and compared with the reference interpretation of the spec tree and with the spec's Gauss-Seidel event list",
+    'C01': dict(category='translation_validation', engine='Script', technique="TLA+ Script.tla program space (stack machine incl. verbatim fragments and verbatim statements, exhaustive layers + simulation + long composed programs judged by ScriptJudge.tla) with reference semantics; generated _evaluate executed concolically on recording arrays and compared with the reference interpretation of the spec tree and with the spec's Gauss-Seidel event list",
                 text="Script.tla enumerates every program of each layer and defines what it means (terms, evaluation order, which cell version every read sees); TLC checks the semantic theorems on every program; the harness renders each program under several name maps, runs fsic's parser and class builder, executes the generated code on recording arrays (term tree + value per write, raw index per access, branch decisions) for every feasible period and three data tables and requires equality with the reference; equality of term trees over uninterpreted leaves holds for all data.",
                 note="Trusted: TLC; renderer (cross-checked by Python's ast on every program); Sym/RecArray concolic layer; Python operators as float semantics. Bounds: layers term/pair/shape/merge exhaustively, sim beyond.", ref='6.7, 7 (C01)'),
     'C03': dict(category='model_checking', engine='Script', technique='TLA+ Script.tla: classification/order/lag-lead/default-range operators and theorems checked by TLC on every generated program; parse_model and build_model outputs compared with the emitted reference',
@@ -34,10 +34,10 @@ CHECKS = {
                 text='TLC proves DefaultRange = feasible set and that all reads of a feasible period are inside the span; the binding solves every period of every program through solve_t and solve(start=end) and checks that feasible periods change only the assigned cells and status/iterations at t, that every array access hits the intended position (no wrap), and that infeasible periods are rejected with nothing changed.',
                 note='Trusted: as C01; python engine only in this check (Fortran engine covered under C07).', ref='7 (C04)'),
     'C14': dict(category='translation_validation', engine='Script', technique="TLA+ Script.tla programs rendered under a layout catalogue; symbols and code AST must equal the canonical rendering's (metamorphic), statement independence, permutation, normal-form fixed point",
-                text='Each spec program is rendered under eleven layouts; since the program (tree) is the meaning, every layout must give the same symbols and code AST; parsing a script must equal merging single-statement parses, permuting statements only permutes symbols and re-feeding a normalised equation reproduces equation and code.',
+                text='Each spec program (equations and verbatim statements) is rendered under twelve layouts (incl. CRLF line endings, comments with unmatched brackets and backticks); since the program (tree) is the meaning, every layout must give the same symbols and code AST; parsing a script must equal merging single-statement parses, permuting statements only permutes symbols and re-feeding a normalised equation reproduces equation and code.',
                 note='Trusted: renderer and layout joiner (cross-checked by ast for the canonical layout).', ref='7 (C14)'),
     'C15': dict(category='translation_validation', engine='Script', technique='TLA+ Script.tla programs x option sets (WithOpt computed by TLC) x build routes; class attributes compared with the reference and evaluation events compared pairwise by concolic execution',
-                text="For every program and four option sets the classes from build_model, from executing the definition text and from executing CODE, with and without type hints, must have the spec's lists and LAGS/LEADS and produce identical evaluation event sequences; converters are called once per equation-bearing symbol in order and their output is inserted verbatim.",
+                text="For every program and four option sets the classes from build_model, from executing the definition text and from executing CODE, with and without type hints, must have the spec's lists and LAGS/LEADS and produce identical evaluation event sequences (verbatim statements report their execution); the CODE attribute equals the definition text for every converter, whatever was built before; converters are called once per equation-bearing symbol in order and their output is inserted verbatim.",
                 note='Trusted: as C01.', ref='7 (C15)'),
     'C20': dict(category='model_checking', engine='Script', technique='TLA+ Script.tla Deps operator (TLC: Deps = right-hand-side reads) vs symbols_to_graph edges; observed reads and perturbation on recording arrays',
                 text="TLC proves Deps(i) equals the variable-like right-hand-side terms; the graph's edges among variable-like nodes must equal Deps, nodes carry their normalised equation, the reads observed when evaluating each equation alone equal its in-edges and perturbing any series/offset without an edge leaves the result unchanged.",
@@ -48,10 +48,10 @@ CHECKS = {
     'C13': dict(category='exploration', engine='Splitter', technique='TLA+ Splitter.tla (character-class transcription of the statement splitter with the property as invariants): TLC enumerates every class string up to the bound; every concrete string over the 27-character alphabet is fed to the real parse_model with side-effect canaries and judged by the emitted legal-outcome set; spec-judged mutation fuzzing of valid scripts',
                 text='Splitter.tla consumes one character class at a time exactly like split_equations_iter (comments, fences, bracket depth, statement regex) and states C13_NoSilentDrop / C13_Outcome / C14_Independent; TLC enumerates all class strings (length <= 4 quick, <= 5 thorough, plus eight context heads) and emits for each the legal outcomes and statement extents; the harness expands each to all concrete strings, runs parse_model under a CPU-time alarm with canaries (print/open/sentinel call/np.geterr/warnings/cwd/module globals), requires a parser-own error or a model that builds, instantiates and has exactly the spec\'s statements, and also judges ~40 seed scripts and their mutants through the spec.',
                 note='Trusted: TLC; the documented expansion of classes to characters; exhaustive only to the stated length; longer inputs by context heads and fuzzing.', ref='6.8, 7 (C13)'),
-    'C18': dict(category='model_checking', engine='Alias', technique='TLA+ Alias.tla: alias-map operators (Shorten, Resolve, ExportNames) and an aliased/canonical twin machine checked exhaustively by TLC; behaviours replayed on an AliasMixin model and a canonical twin',
+    'C18': dict(category='model_checking', engine='Alias', technique='TLA+ Alias.tla: alias-map operators (Shorten, Resolve, ExportNames) and an aliased/canonical twin machine checked exhaustively by TLC; behaviours replayed on an AliasMixin model and a canonical twin under three name maps (plain, adversarial, aliases spelt like class attributes)',
                 text='Alias.tla transcribes chain shortening, resolution, preferred-name checks and export naming, and runs an aliased model and its canonical twin in lock-step under the container operation alphabet; TLC checks C18_Shorten/Twin/NoStorage/Ambiguous/Export over all alias maps (many-to-one, chains, self-maps, aliases of aliases) x PREFERRED_NAMES subsets x histories; each behaviour is replayed on real classes (constructor keywords, attribute/key/label/slice/bulk access, solution code through aliases, to_dataframe(use_aliases=True)) with storage-identity checks and a CPU-time alarm on construction.',
                 note='Trusted: TLC; <=3 variables, <=4 aliases, chains <=3, histories <=3 exhaustively; pandas rename observed.', ref='6.5, 7 (C18)'),
-    'C19': dict(category='exploration', engine='Tabular', technique='TLA+ Tabular.tla: ToTable/FromTable/linker tables/symbol-table operators with round-trip invariants checked by TLC; emitted expected tables compared with real DataFrames over seven span types and eight flag sets; symbol round trip on parser output',
+    'C19': dict(category='exploration', engine='Tabular', technique='TLA+ Tabular.tla: ToTable/FromTable/linker tables/symbol-table operators with round-trip invariants checked by TLC; emitted expected tables compared with real DataFrames over seven span types (ascending, descending and rotated labels) and eight flag sets, models constructed with dtype float/int/bool; symbol round trip on parser output',
                 text='Tabular.tla defines the expected table (index, columns in model order, dtype kinds, cells, status/iterations/internal flags), the from_dataframe inverse, per-submodel linker tables and the symbol round trip; TLC checks C19_Shape/RoundTrip/Linker/Symbols on every model shape in the bound and emits the expected tables; the harness builds the real models (extra int/bool/str/float and underscore variables, solved and unsolved) over seven span types, compares the DataFrames cell by cell, re-imports them and round-trips every symbol list.',
                 note='Trusted: TLC; pandas dtype coercions are observed, not modelled; from_dataframe covers class-level variables only.', ref='6.10, 7 (C19)'),
     'C09': dict(category='model_checking', engine='Container', technique='TLA+ Container.tla: the public container operation alphabet x operand classes as a machine with C09_Shape/Atomic/Strict invariants; TLC exhaustive histories + simulation; every history replayed on VectorContainer, BaseModel and BaseLinker with a full projection after every operation',
